@@ -176,4 +176,9 @@ theorem guards_validators : Gen.Guards.transfer = Spec.Guards.transfer ∧ Gen.G
 theorem guards_model_parameter_ranges : Gen.Guards.fitParameterRanges = Spec.Guards.fitParameterRanges := by decide
 example : Spec.Guards.fitParameterRanges.length = 4 := by decide
 
+/-- the WDM frameworks validate exactly as the CDM frameworks they extend (the cross-parameter checks `lnk_min < lnk_max`,
+    at least two wavenumbers, `Mmin < Mmax`, … of the regenerated `validate()` chain are inherited unchanged) -/
+theorem wdm_frameworks_validate_like_cdm :
+    Gen.descTransferWDM.validate = Gen.descTransfer.validate ∧ Gen.descMassFunctionWDM.validate = Gen.descMassFunction.validate := ⟨rfl, rfl⟩
+
 end Hmf.C14
